@@ -200,7 +200,12 @@ def run_kani(spec, tier):
     if len(harness_rows) < minh and r.status == PASS:
         r.status, r.reason = INCONCLUSIVE, 'vacuity guard: %d harnesses ran, expected >= %d' % (len(harness_rows), minh)
     r.extra['harnesses'] = harness_rows
-    r.functions = [{'kind': 'fn', 'selector': f, 'file': f.split(' ')[0], 'line': 0, 'sha256': key} for f in spec.get('functions', [])]
+    r.functions = []
+    for f in spec.get('functions', []):
+        rel = f.split(' ')[0]
+        fp = os.path.join(REPO, rel)
+        sha = hashlib.sha256(open(fp, 'rb').read()).hexdigest()[:16] if os.path.isfile(fp) else key
+        r.functions.append({'kind': 'fn', 'selector': f, 'file': rel, 'line': 0, 'sha256': sha + ' (whole file)'})
     r.assumptions = list(KANI_ASSUME) + list(spec.get('assumptions', []))
     r.bounded = spec.get('bounded')
     if r.bounded:
